@@ -1315,6 +1315,10 @@ def oracle(c, obs):
                             ch in cs and before["st"][q] in _IN and q not in before["mk"] for (q, rj), cs in before["coll"].items()
                         ):
                             tag = "F3"
+                        elif v in before["mk"] and any(
+                            ch in cs and before["st"][q] not in _IN for (q, rj), cs in before["coll"].items()
+                        ):
+                            tag = "F4"
                         return "%s: row %d references parent %d through delete-orphan relationship r%d but the parent row is gone" % (tag, ch, v, ri)
             at_flush = {}
             for (q, ri), cs in after["coll"].items():
@@ -1330,6 +1334,8 @@ def match_finding(c, what):
         return "C39-append-to-deleted-parent-dangling-row"
     if what.startswith("F3:"):
         return "C39-delete-cancelled-by-pending-parent"
+    if what.startswith("F4:"):
+        return "C39-reparented-outside-session-dangling-row"
     return None
 
 
